@@ -42,7 +42,7 @@ CHECKS = {
               "occurrence, either direction) on files of 0/5/9 bytes, both NAK modes, closure on/off, limits K+3, and every schedule "
               "of 3 faults on a 5-byte file, evaluated inside the kernel on System.v: delivered, both users successful, both idle. "
               "UNBOUNDED for K = 1 (props/C03u.v, C03m.v): for every file, every position of ONE lost File Data PDU, and for the lost "
-              "Metadata PDU, immediate and deferred NAK mode, the transfer is delivered byte-identical without API error. The general liveness theorem (all K, all fault "
+              "Metadata PDU, and (C03r) every lost control PDU (EOF, ACK (EOF), Finished, ACK (Finished)), and (C03d) any one duplicated PDU, immediate and deferred NAK mode, the transfer is delivered byte-identical. The general liveness theorem (all K, all fault "
               "kinds, all interleavings) is not proved.", "6/C03"),
     "C04": _c("Coq proof (case analysis of the three retry procedures, for all limits N and intervals) + correspondence + virtual-clock oracle",
               "Proof (props/C04.v): EOF-awaiting-ACK, Finished-awaiting-ACK and the NAK procedure: nothing before expiry; expiry k<N "
@@ -88,7 +88,9 @@ CHECKS = {
               "Proof (props/C11.v): whenever a handler is idle its per-transaction parameter block is the freshly constructed one "
               "(invariant of every API call, hence every history); a new transaction ignores whatever was there. Instance isolation "
               "holds by construction in the model; the part the code can violate (shared mutable defaults) is what the differential "
-              "run tests: same follow-up transaction on fresh / reused / sibling-busy handlers.", "6/C11"),
+              "run tests: same follow-up transaction on fresh / reused / sibling-busy handlers. HISTORY INDEPENDENCE (props/C11b.v): two "
+              "idle handlers that agree on configuration, environment, queued PDUs, ready counter (and the sender's sequence "
+              "counter) give identical observations under every sequence of API calls, whatever their histories left behind.", "6/C11"),
     "C12": _c("Coq proof (case analysis of cancel_request, EOF(cancel) handling and the cancelled completion) + correspondence + cancel oracle",
               "Proof (props/C12.v): cancel returns true iff an active transaction has that id (unchanged state otherwise); sender: "
               "next PDU is EOF(Cancel Request Received, size = progress, checksum of that prefix), file-data step left for good; "
